@@ -96,4 +96,5 @@ uint64_t mcx_num_states(void);
 
 double mcx_now(void);
 extern int mcx_verbose;
+extern const char *mcx_crash_prop;
 #endif
